@@ -88,8 +88,8 @@ func (c Config) RootCids() []cid.Cid {
 	return out
 }
 
-var dataPads = []uint64{0, 0, 0, 1, 7, 100, 1413}
-var indexPads = []uint64{0, 0, 0, 1, 9, 512}
+var dataPads = []uint64{0, 0, 0, 1, 7, 100, 1413, 512, 4096}
+var indexPads = []uint64{0, 0, 0, 1, 9, 512, 4096}
 
 // GenConfig draws a configuration swarm-style: each run enables a random subset of features.
 func GenConfig(r *Rng, store string) Config {
